@@ -131,6 +131,97 @@ def derived_ecdsa_keys(ctx):
     return out
 
 
+def block_boundary_rsa_keys(ctx):
+    """Generated RSA-1024 keys chosen by the length of their DER (TraditionalOpenSSL) encoding modulo the PEM cipher
+    block size 16: one whose length is a multiple of 16 (the encrypted PEM then ends in a FULL block of PKCS#7
+    padding) and one for each other residue met on the way (the DER length varies 606..610 with the leading bits)."""
+    import paramiko
+    from cryptography.hazmat.primitives import serialization as S
+    out, seen = [], set()
+    need = 3 if ctx.thorough else 2
+    for _ in range(80):
+        k = paramiko.RSAKey.generate(1024)
+        n = len(k.key.private_bytes(S.Encoding.DER, S.PrivateFormat.TraditionalOpenSSL, S.NoEncryption()))
+        r = n % 16
+        if r not in seen and (r == 0 or len(seen - {0}) < need - 1):
+            seen.add(r)
+            out.append(("generated-rsa-1024-der%d-mod16-%d" % (n, r), k, None))
+        if 0 in seen and len(seen) >= need:
+            break
+    return out
+
+
+def passphrase_sequences(ctx, cls, label, text, right, expect_key, tmp):
+    """A protected key file is loaded several times in ONE process with right / wrong / no passphrase, in the given
+    order: every attempt must behave as if it were the only one (no state may leak between attempts)."""
+    from paramiko.ssh_exception import SSHException, PasswordRequiredException
+    path = os.path.join(tmp, "seq")
+    open(path, "w").write(text)
+    seq = ctx.rng.choice([["wrong", "right", "wrong2", None, "right", ""], ["wrong", None, "right", "wrong", "right"]]) \
+        if label.endswith("wrong-first") else ["right", "wrong", "right", None, "wrong2", "right"]
+    hist = []
+    for step in seq:
+        pw = right if step == "right" else step if step is None else (step + "-" + label[:3]) if step else ""
+        try:
+            k = cls.from_private_key_file(path, pw)
+            got = "loaded" if expect_key is None or k == expect_key else "loaded-other-key"
+        except PasswordRequiredException:
+            got = "PasswordRequiredException"
+        except SSHException:
+            got = "SSHException"
+        except Exception as e:   # noqa
+            got = type(e).__name__
+        want = ["loaded"] if step == "right" else ["PasswordRequiredException"] if step is None else \
+            ["SSHException", "PasswordRequiredException"] if step == "" else ["SSHException"]
+        hist.append((step, got))
+        ctx.count(("pwseq", label, tuple(hist)), kind="passphrase-sequence")
+        if got not in want:
+            ctx.fail("passphrase-sequence:%s:%s-after-%s" % (cls.__name__, step, hist[-2][0] if len(hist) > 1 else "start"),
+                     "loading the same protected key file repeatedly in one process: attempt %d with %s gave %s (expected %s); "
+                     "history %s" % (len(hist), "the right passphrase" if step == "right" else "no passphrase" if step is None
+                                     else "a wrong passphrase", got, " / ".join(want), hist),
+                     case={"class": cls.__name__, "file": label, "text": text, "right": right, "sequence": seq},
+                     expected=want, observed=got)
+            break
+
+
+def protected_files(ctx, keys):
+    """(class, label, text, right passphrase, key or None): bcrypt-protected OpenSSH-format files (bundled and freshly
+    made, all classes) and encrypted PEM files written by paramiko; each twice so that one copy is first attempted
+    with the right and the other first with a wrong passphrase (fresh salt per copy)."""
+    import paramiko
+    from cryptography.hazmat.primitives.asymmetric import ec, rsa, ed25519
+    from cryptography.hazmat.primitives import serialization as S
+    out = []
+    for rel, cls, pw in (("tests/test_ed25519_password.key", "Ed25519Key", "abc123"),
+                         ("tests/test_ed25519-funky-padding_password.key", "Ed25519Key", "asdf"),
+                         ("tests/test_rsa_openssh.key", "RSAKey", "television"),
+                         ("tests/test_ecdsa_384_openssh.key", "ECDSAKey", "television"),
+                         ("tests/test_rsa_password.key", "RSAKey", "television"),
+                         ("tests/test_ecdsa_password_256.key", "ECDSAKey", "television")):
+        p = os.path.join(ctx.repo, rel)
+        if os.path.exists(p):
+            out.append((getattr(paramiko, cls), rel + ":right-first", open(p).read(), pw, None))
+    try:
+        enc = lambda pw: S.PrivateFormat.OpenSSH.encryption_builder().kdf_rounds(2).build(pw)   # noqa
+        enc(b"x")
+    except Exception:
+        enc = lambda pw: S.BestAvailableEncryption(pw)   # noqa
+    for cname, gen in (("Ed25519Key", ed25519.Ed25519PrivateKey.generate), ("RSAKey", lambda: rsa.generate_private_key(65537, 1024)),
+                       ("ECDSAKey", lambda: ec.generate_private_key(ec.SECP256R1()))):
+        for order in ("right-first", "wrong-first"):
+            pw = "pw-%d" % ctx.rng.randrange(10 ** 6)
+            text = gen().private_bytes(S.Encoding.PEM, S.PrivateFormat.OpenSSH, enc(pw.encode())).decode()
+            out.append((getattr(paramiko, cname), "fresh-openssh-%s:%s" % (cname, order), text, pw, None))
+    for label, k, _ in keys:
+        if isinstance(k, (paramiko.RSAKey, paramiko.ECDSAKey)) and label.startswith("generated") and "der" not in label:
+            for order in ("right-first", "wrong-first"):
+                f = io.StringIO()
+                k.write_private_key(f, password="pem-pw")
+                out.append((type(k), "%s-pem:%s" % (label, order), f.getvalue(), "pem-pw", k))
+    return out
+
+
 def make_keys(ctx):
     import paramiko
     out = []
@@ -139,6 +230,7 @@ def make_keys(ctx):
     for bits in (256, 384, 521):
         out.append(("generated-ecdsa-%d" % bits, paramiko.ECDSAKey.generate(bits=bits), None))
     out += derived_ecdsa_keys(ctx)
+    out += block_boundary_rsa_keys(ctx)
     for rel, cls, pw, cert in BUNDLED:
         if not ctx.thorough and cert is None and rel not in ("tests/test_ecdsa_384.key", "tests/test_rsa_password.key",
                                                              "tests/test_ed25519_password.key"):
@@ -219,7 +311,7 @@ def run(ctx):
                 "RSA / ECDSA / Ed25519 private keys (PEM, encrypted, OpenSSH), the three bundled certificates; per key: asbytes vs "
                 "model, ~25 decoder inputs (genuine, 11 type names incl. invalid UTF-8 and cert names, truncations, curve names, "
                 "off-curve / wrong-length / degenerate points, bad RSA numbers, wrong-length Ed25519 keys, certificate blobs), "
-                "public counterparts via data= / msg= / from_type_string, private write/reload with passphrases (none, ascii, "
+                "RSA-1024 keys generated until the DER length is a multiple of the PEM cipher block (full PKCS#7 padding block) plus other residues, public counterparts via data= / msg= / from_type_string, bcrypt-protected OpenSSH files (bundled + fresh, all classes) and encrypted PEM files each loaded 5-6 times in one process with right / wrong / no passphrase in right-first and wrong-first order, private write/reload with passphrases (none, ascii, "
                 "unicode, long, bytes; reload with same / none / wrong), and write_private_key_file under umasks {0, 022, 027, 077, "
                 "0177, 0277, 0600, 0777, random} onto new and pre-existing (0644, 0666, 0600, 0400, 0755, random) targets")
     ctx.trusted += ["cryptography PEM serialisation / encryption, RSA number and EC point validation, nacl key length check (oracles)",
@@ -368,6 +460,9 @@ def run(ctx):
                                  case={"key": label, "umask": oct(um)}, expected="0o600", observed=oct(mode))
                     if ex is not None and mode != ex:
                         ctx.notes.append("pre-existing target mode changed: %s -> %s" % (oct(ex), oct(mode)))
+        # ---- the same protected file loaded repeatedly in one process, right-first and wrong-first ----
+        for pcls, plabel, text, right, pk in protected_files(ctx, keys):
+            passphrase_sequences(ctx, pcls, plabel, text, right, pk, tmp)
         # different keys are never equal; equal hash only when equal
         for i in range(len(pubs)):
             for j in range(i + 1, len(pubs)):
